@@ -12,7 +12,7 @@ import (
 
 // C16 wire input (mirror of coq/theories/C16_Wire.v): a short program.
 //
-//	pre spare <es> tpre tspare <et> <m0> <m1> <L> <C>  [fn x y]*
+//	pre spare <es> tpre tspare <et> <m0> <m1> <L> <C> a  [fn x y]*
 //
 // array0 = pre sentinels ++ es ++ spare sentinels, s = array0[pre:pre+n:pre+n+spare]; array1 / t likewise;
 // map0 = m0, map1 = m1 (flat k v k v ...).  lists = the caller's [][]int: a backing array
@@ -33,7 +33,10 @@ import (
 //	47 Merge(s, x times t)  48 Intersection(s, x times t)  49 Zip(x times s)
 //	70 Merge(s, lists[x:y]...)  71 Intersection(lists[x:y]...)  72 IntersectionBy(f4, lists[x:y]...)
 //	73 Zip(lists[x:y]...)  74 Unzip(lists[x:y]...)                  (the spread form: the callee gets the caller's [][]int)
-//	75 Flatten(anys)  76 Union(anys)      anys = the caller's []any{s, []any{t, 5}, t} (inside [sentinel, ..., sentinel])
+//	75 Flatten(anys)  76 Union(anys)      anys = the caller's nested []any number a (inside [sentinel, ..., sentinel]):
+//	   0 = []any{s, []any{t, 5}, t};  1-3 = a string first / in the middle / last in []any{s, t};
+//	   4-6 = the same in the sub-list of []any{s, []any{t, 5}, t};  7-9 = the same at depth 3 (c16AnyTree).
+//	   A failing Flatten / Union must leave every cell of it, at every depth, as it was.
 //	50 Sum 51 SumBy(f) 52 Mean 53 IndexOf(s,y) 54 LastIndexOf(s,y) 55 ForEach 56 ForEachRight 57 Reduce(+,0) 58 Every(p)
 //	59 Some(p) 60 Contains(s,y) 61 FindIndex(p) 62 FindLastIndex(p) 63 FindMin 64 FindMinBy(f) 65 FindMax 66 FindMaxBy(f)
 //	67 Nth(s,y) 68 Min(s...) 69 Max(s...)
@@ -138,11 +141,31 @@ type c16World struct {
 	coll   []map[int]int
 	c2b    []map[int]map[int]int
 	coll2  []map[int]map[int]int
-	anyb   []any // [sentinel, s, []any{t, 5}, t, sentinel]
+	anyb   []any // ["sentinel", cells of the tree..., "sentinel"]
 	anys   []any
 }
 
-// 1 len elems = a []int, 2 v = an int, 3 n cells = a []any, 9 = anything else (the sentinel)   (print_A in C16_Wire.v)
+// c16AnyTree builds the caller's nested []any number a (mirror of any_lists in C16_Wire.v).
+func c16AnyTree(a int, s, t []int) []any {
+	bad := func(pos int, good ...any) []any { // the string "x" at position pos among the good elements
+		out := make([]any, 0, len(good)+1)
+		out = append(out, good[:pos]...)
+		out = append(out, "x")
+		return append(out, good[pos:]...)
+	}
+	switch {
+	case a == 0:
+		return []any{s, []any{t, 5}, t}
+	case a <= 3:
+		return bad(a-1, s, t)
+	case a <= 6:
+		return []any{s, bad(a-4, t, 5), t}
+	default:
+		return []any{s, []any{t, bad(a-7, 5, s), 5}}
+	}
+}
+
+// 1 len elems = a []int, 2 v = an int, 3 n cells = a []any, 8 = nil, 9 = anything else (a string)   (print_A in C16_Wire.v)
 func c16PrintAny(out []int, cells []any) []int {
 	for _, c := range cells {
 		switch v := c.(type) {
@@ -154,6 +177,8 @@ func c16PrintAny(out []int, cells []any) []int {
 		case []any:
 			out = append(out, 3, len(v))
 			out = c16PrintAny(out, v)
+		case nil:
+			out = append(out, 8)
 		default:
 			out = append(out, 9)
 		}
@@ -199,7 +224,7 @@ func (w *c16World) printC2() []int {
 	return out
 }
 
-func c16NewWorld(s, t []int, m0, m1 map[int]int, L, C []int) *c16World {
+func c16NewWorld(s, t []int, m0, m1 map[int]int, L, C []int, a int) *c16World {
 	w := &c16World{s: s, t: t, m0: m0, m1: m1}
 	w.lb = make([][]int, 0, len(L)+2)
 	w.lb = append(w.lb, []int{-4242})
@@ -228,8 +253,9 @@ func c16NewWorld(s, t []int, m0, m1 map[int]int, L, C []int) *c16World {
 	w.coll = w.cb[1 : 1+len(C) : 2+len(C)]
 	w.c2b = []map[int]map[int]int{{}, {0: m0, 1: m1}, {2: m1}, {}}
 	w.coll2 = w.c2b[1:3:3]
-	w.anyb = []any{"sentinel", s, []any{t, 5}, t, "sentinel"}
-	w.anys = w.anyb[1:4:5]
+	tree := c16AnyTree(a, s, t)
+	w.anyb = append(append([]any{"sentinel"}, tree...), "sentinel")
+	w.anys = w.anyb[1 : 1+len(tree) : 2+len(tree)]
 	return w
 }
 
@@ -532,6 +558,10 @@ func execC16(in []int64) []int64 {
 	tpre, tspare, et := r.Int(), r.Int(), r.Ints()
 	f0, f1 := r.Ints(), r.Ints()
 	L, C := r.Ints(), r.Ints()
+	a := r.Int()
+	if a < 0 || a > 9 {
+		r.bad = true
+	}
 	for _, c := range L {
 		if c < 0 || c >= 99 {
 			r.bad = true
@@ -553,7 +583,7 @@ func execC16(in []int64) []int64 {
 	b0, s := c16Backing(0, pre, es, spare)
 	b1, t := c16Backing(1, tpre, et, tspare)
 	m0, m1 := c16MapOf(f0), c16MapOf(f1)
-	w := c16NewWorld(s, t, m0, m1, L, C)
+	w := c16NewWorld(s, t, m0, m1, L, C, a)
 	var readers []reader
 	for i := 0; i+2 < len(rest); i += 3 {
 		fn, x, y := int(rest[i]), int(rest[i+1]), int(rest[i+2])
@@ -583,13 +613,14 @@ func describeC16(in []int64) string {
 	tpre, tspare, et := r.Int(), r.Int(), r.Ints()
 	f0, f1 := r.Ints(), r.Ints()
 	L, C := r.Ints(), r.Ints()
+	a := r.Int()
 	short := func(xs []int) string {
 		if len(xs) > 12 {
 			return fmt.Sprintf("%v...(len %d)", xs[:12], len(xs))
 		}
 		return fmt.Sprint(xs)
 	}
-	fmt.Fprintf(&sb, "s=%s (pre %d, spare cap %d) t=%s (pre %d, spare %d) map0=%v map1=%v lists=%s coll=%v:", short(es), pre, spare, short(et), tpre, tspare, f0, f1, short(L), C)
+	fmt.Fprintf(&sb, "s=%s (pre %d, spare cap %d) t=%s (pre %d, spare %d) map0=%v map1=%v lists=%s coll=%v anys=#%d:", short(es), pre, spare, short(et), tpre, tspare, f0, f1, short(L), C, a)
 	rest := r.Rest()
 	for i := 0; i+2 < len(rest); i += 3 {
 		fmt.Fprintf(&sb, " %s[x=%d,y=%d];", c16Name(int(rest[i])), rest[i+1], rest[i+2])
@@ -608,6 +639,7 @@ func c16ConfigsS() []c16Cfg {
 		{30, 4, 0}, {31, 0, 0}, {32, 0, 0}, {33, 2, 0}, {34, 0, 0}, {35, 0, 0}, {36, 0, 0}, {37, 0, 0}, {38, 4, 0},
 		{39, 4, 0}, {40, 0, 0}, {41, 2, 0}, {42, 0, 0}, {43, 0, 0}, {44, 0, 0}, {45, 0, 0}, {46, 0, 0}, {47, 3, 0},
 		{48, 2, 0}, {49, 3, 0}, {70, 0, 5}, {70, 1, 3}, {71, 0, 3}, {71, 1, 5}, {72, 0, 5}, {73, 0, 2}, {73, 1, 3}, {74, 0, 2}, {75, 0, 0}, {76, 0, 0},
+		{8, 0, 0}, {67, 0, 5}, {67, 0, -5}, {71, 1, 1}, {73, 1, 1}, {70, 3, 2}, {70, 0, 9}, // panics / errors: Chunk size 0, Nth out of range, Intersection() without parameters, bad slice bounds
 		{114, 0, 1}, {120, 2, 0}, {122, 2, 0},
 		{50, 0, 0}, {51, 1, 0}, {52, 0, 0}, {53, 0, 1}, {54, 0, 1}, {55, 0, 0}, {56, 0, 0}, {57, 0, 0}, {58, 2, 0},
 		{59, 2, 0}, {60, 0, 1}, {61, 4, 1}, {62, 4, 1}, {63, 0, 0}, {64, 3, 0}, {65, 0, 0}, {66, 3, 0}, {67, 0, 1},
@@ -626,9 +658,9 @@ func c16ConfigsM() []c16Cfg {
 
 func genC16(g *Gen) {
 	cfgS, cfgM := c16ConfigsS(), c16ConfigsM()
-	curL, curC := []int{1, 0, 2, 3, 1}, []int{0, 1, 1}
+	curL, curC, curA := []int{1, 0, 2, 3, 1}, []int{0, 1, 1}, 0
 	prog := func(pre, spare int, es []int, tpre, tspare int, et []int, m0, m1 []int, calls ...c16Cfg) *W {
-		w := (&W{}).Int(pre).Int(spare).Ints(es).Int(tpre).Int(tspare).Ints(et).Ints(m0).Ints(m1).Ints(curL).Ints(curC)
+		w := (&W{}).Int(pre).Int(spare).Ints(es).Int(tpre).Int(tspare).Ints(et).Ints(m0).Ints(m1).Ints(curL).Ints(curC).Int(curA)
 		for _, c := range calls {
 			w.Int(c.fn).Int(c.x).Int(c.y)
 			if c16ValueFree[c.fn] {
@@ -707,9 +739,31 @@ func genC16(g *Gen) {
 			}
 		}
 	})
+	// --- exhaustive E: error paths of Flatten / Union: the caller's nested []any number 1-9 has a value of another type at
+	//     depth 1, 2, 3 in first / middle / last position (0 is well typed): alone, twice, and before / after every
+	//     other slice-world call; every cell of the []any, at every depth, is recorded after each call
+	slicesOver([]int{1, 2}, 2, func(es []int) {
+		esc := cloneInts(es)
+		for a := 0; a <= 9; a++ {
+			curA = a
+			for _, fl := range []c16Cfg{{75, 0, 0}, {76, 0, 0}} {
+				g.Count(fmt.Sprintf("anys=#%d", a))
+				g.Case("exhaustive", a >= 1, prog(1, 2, esc, 1, 1, []int{2, 1}, M0, M1, fl).Out())
+				g.Case("exhaustive", a >= 1, prog(1, 2, esc, 1, 1, []int{2, 1}, M0, M1, fl, c16Cfg{151 - fl.fn, 0, 0}).Out())
+				if len(esc) == 2 && esc[0] != esc[1] && (esc[0] == 1 || !g.Quick()) {
+					for _, c := range cfgB {
+						g.Case("exhaustive", a >= 1, prog(1, 2, esc, 1, 1, []int{2, 1}, M0, M1, fl, c).Out())
+						g.Case("exhaustive", a >= 1, prog(1, 2, esc, 1, 1, []int{2, 1}, M0, M1, c, fl).Out())
+					}
+				}
+			}
+		}
+		curA = 0
+	})
 	// --- exhaustive C: map programs: every single call and ordered pair of map-helper calls on every map0 with <= 2
 	//     (thorough 3) entries over keys 0..2 x values {1,2}; s is the key list (inside a backing array with
 	//     sentinels), t = [0 3] the key list for map1
+	usesS := func(c c16Cfg) bool { return c.fn < 100 || c.fn == 103 || c.fn == 106 || c.fn == 119 }
 	maps := allMaps(3, []int{1, 2}, g.Pick(2, 3))
 	kss := [][]int{{0}, {1, 2}}
 	for _, m0 := range maps {
@@ -717,6 +771,9 @@ func genC16(g *Gen) {
 			for _, c1 := range cfgM {
 				g.Case("exhaustive", len(m0) >= 4, prog(1, 1, ks, 0, 1, []int{0, 3}, m0, []int{0, 2, 3, 1}, c1).Out())
 				for _, c2 := range cfgM {
+					if g.Quick() && len(ks) == 1 && !usesS(c1) && !usesS(c2) {
+						continue // the key list s matters to neither call: one key list is enough in the quick tier
+					}
 					g.Case("exhaustive", len(m0) >= 4, prog(1, 1, ks, 0, 1, []int{0, 3}, m0, []int{0, 2, 3, 1}, c1, c2).Out())
 				}
 				for _, ip := range []c16Cfg{{106, 0, 0}, {107, 2, 1}, {107, 3, 2}} { // (c ; Omit/OmitBy ; c)
@@ -870,5 +927,5 @@ func genC16(g *Gen) {
 
 func init() {
 	register(&Prop{ID: "C16", Exec: execC16, Gen: genC16, Describe: describeC16,
-		Rule: "a case is a program of 1-4 helper calls that share their arguments s, t, map0, map1; slice arguments live inside backing arrays with sentinel cells before the slice and in the spare capacity behind it, and the COMPLETE arrays and both maps are recorded after every call, as is every earlier result (re-read after the call). exhaustive A: each of the 96 slice-world call configurations (84 helper codes) alone on every slice of length <= 3 (thorough 4) over {0,1,2} x offset {0,1} x spare capacity {0..3} x 3 second arguments; B: every ORDERED PAIR of these configurations (quick tier: of those that return a slice or map or work in place, one parameter variant each) on every slice of length <= 3 over {1,2} (thorough {0,1,2}) with spare capacity 2 and 0 (quick tier: the no-spare variant up to length 2); D: every triple (c ; in-place helper ; c) of a slice-world configuration c around each of 9 in-place calls on the same slices; C: every single call, ordered pair and triple (c ; Omit/OmitBy ; c) of the 40 map-world configurations on every map0 with <= 2 (thorough 3) entries over keys 0..2 x values {1,2} x 2 key lists (s = the key list, in a backing array); large: every slice-world configuration alone on slices of 33, 64, 65, 129, 257, 1025 (thorough also 2049, 4097) elements with spare capacity {0, 1, len(t)-1, len(t)+1, n-1, n+1, 2n+5} and len(t) = 3 (70 as well for n = 65, 129) (below and above what a helper appends; heap.FromSlice/Sort up to 129, thorough 257), 66 variadic slice parameters built by the call and windows of 33, 34, 35, 40, 70 elements of the caller's own [][]int of 70 slices of differing lengths passed in spread form to Merge / Intersection / IntersectionBy, n-by-n Zip up to 129, and 120 ordered pairs per size (up to 257) and spare capacity {6, n+3} (thorough also 0); then seeded random programs of up to 3 calls of any helper on slices up to length 9 / maps up to 6 entries. non-trivial = len(s) >= 1 and spare capacity >= 1 [and >= 2 calls in the random stream]; (stream C) map0 has >= 2 entries; distinct = distinct wire input"})
+		Rule: "a case is a program of 1-4 helper calls that share their arguments s, t, map0, map1; slice arguments live inside backing arrays with sentinel cells before the slice and in the spare capacity behind it, and the COMPLETE arrays and both maps are recorded after every call, as is every earlier result (re-read after the call). exhaustive A: each of the 103 slice-world call configurations (84 call codes) alone on every slice of length <= 3 (thorough 4) over {0,1,2} x offset {0,1} x spare capacity {0..3} x 3 second arguments; B: every ORDERED PAIR of these configurations (quick tier: of those that return a slice or map or work in place, one parameter variant each) on every slice of length <= 3 over {1,2} (thorough {0,1,2}) with spare capacity 2 and 0 (quick tier: the no-spare variant up to length 2); E: Flatten / Union on each of the 10 caller-owned nested []any (a value of another type at depth 1, 2, 3 x first / middle / last position, and the well-typed one) alone, followed by the other of the two, and before / after every other non-scalar call; the slice-world configurations include the failing calls (Chunk size 0, Nth out of range, Zip / Unzip on ragged input, SliceToMap on unequal lengths, Range errors, Intersection without parameters, slice bounds out of range, Mean of nothing) and all objects are recorded after a panic or an error exactly as after a normal return; D: every triple (c ; in-place helper ; c) of a slice-world configuration c around each of 9 in-place calls on the same slices; C: every single call, ordered pair and triple (c ; Omit/OmitBy ; c) of the 40 map-world configurations on every map0 with <= 2 (thorough 3) entries over keys 0..2 x values {1,2} x 2 key lists (s = the key list, in a backing array; quick tier: pairs in which neither call takes s run with one key list); large: every slice-world configuration alone on slices of 33, 64, 65, 129, 257, 1025 (thorough also 2049, 4097) elements with spare capacity {0, 1, len(t)-1, len(t)+1, n-1, n+1, 2n+5} and len(t) = 3 (70 as well for n = 65, 129) (below and above what a helper appends; heap.FromSlice/Sort up to 129, thorough 257), 66 variadic slice parameters built by the call and windows of 33, 34, 35, 40, 70 elements of the caller's own [][]int of 70 slices of differing lengths passed in spread form to Merge / Intersection / IntersectionBy, n-by-n Zip up to 129, and 120 ordered pairs per size (up to 257) and spare capacity {6, n+3} (thorough also 0); then seeded random programs of up to 3 calls of any helper on slices up to length 9 / maps up to 6 entries. non-trivial = len(s) >= 1 and spare capacity >= 1 [and >= 2 calls in the random stream]; (stream E) the []any is malformed; (stream C) map0 has >= 2 entries; distinct = distinct wire input"})
 }
